@@ -4,6 +4,7 @@ import Driver.SortDrv
 import Driver.SetDrv
 import Driver.AssocDrv
 import Driver.CollDrv
+import Driver.CdcnDrv
 open Lean Drv
 
 def handle (line : String) : String :=
@@ -21,6 +22,7 @@ def handle (line : String) : String :=
     | "coll" => collLine j
     | "coll3" => coll3Line j
     | "collcyc" => collcycLine j
+    | "cdcn" => cdcnLine j
     | k => verdict false true "bad-kind" k
 
 partial def loop (h : IO.FS.Stream) (out : IO.FS.Stream) : IO Unit := do
